@@ -1,7 +1,8 @@
 /-
   Helper lemmas for properties C11 (case rules) and C12 (namespace selectors):
   string constants, `lower`, the name comparison `nameEq`, `List.find?` congruence, and the
-  branch-by-branch normal forms of `matchAttributeName`.
+  branch-by-branch normal forms of `matchAttributeName` (first designated attribute) and
+  `matchAttributeValues` (every designated attribute).
 -/
 import SoupVerif.Model.Api
 namespace SoupVerif
@@ -171,6 +172,75 @@ theorem man_star {c : Ctx} (h : c.supportsNamespaces = true) (e : Elem) (a : Str
   · dsimp only
     congr 1
     apply find?_congr
+    intro x _
+    cases hk : x.kns
+    · simp [nameEq]
+    · simp [localNameEq, nameEq]; rfl
+
+/-! ### Normal forms of `matchAttributeValues` (every designated attribute), one per branch
+
+  Same predicates as above with `List.filter` in place of `List.find?`; `matchAttributeName` is the
+  head of `matchAttributeValues` (`matchAttributeName_eq_head?`). -/
+
+/-- `filter` followed by a projection on two lists related element-wise. -/
+theorem filter_map_pairwise₂ {α β} {R : α → α → Prop} {p q : α → Bool} {f : α → β}
+    (hp : ∀ x y, R x y → p x = q y) (hf : ∀ x y, R x y → f x = f y) :
+    ∀ {l₁ l₂ : List α}, Pairwise₂ R l₁ l₂ → (l₁.filter p).map f = (l₂.filter q).map f := by
+  intro l₁ l₂ h
+  induction h with
+  | nil => rfl
+  | @cons a b _ _ hab _ ih =>
+    simp only [List.filter_cons, hp a b hab]
+    cases q b
+    · exact ih
+    · simp [hf a b hab, ih]
+
+theorem mav_no_ns {c : Ctx} (h : c.supportsNamespaces = false) (e : Elem) (a p : Str) :
+    matchAttributeValues c e a p = (e.attrs.filter (fun x => lower a == lower x.key)).map valOf := by
+  simp [matchAttributeValues, h]
+
+theorem mav_bare {c : Ctx} (h : c.supportsNamespaces = true) (e : Elem) (a : Str) :
+    matchAttributeValues c e a [] = (e.attrs.filter (fun x => nameEq c a x.key)).map valOf := by
+  simp [matchAttributeValues, h, nameEq]
+
+theorem mav_unmapped {c : Ctx} (h : c.supportsNamespaces = true) (e : Elem) (a p : Str)
+    (hp : p ≠ []) (hs : p ≠ "*".toStr) (hm : c.nsGet p = none) :
+    matchAttributeValues c e a p = [] := by
+  rw [star_toStr] at hs
+  simp [matchAttributeValues, h, hp, hs, hm]
+
+theorem mav_ns {c : Ctx} (h : c.supportsNamespaces = true) (e : Elem) (a p u : Str)
+    (hp : p ≠ []) (hs : p ≠ "*".toStr) (hm : c.nsGet p = some u) :
+    matchAttributeValues c e a p =
+      (e.attrs.filter (fun x => x.kns == some u && localNameEq c a x)).map valOf := by
+  rw [star_toStr] at hs
+  simp only [matchAttributeValues, h, hm, if_true, star_toStr]
+  have hpe : p.isEmpty = false := by cases p <;> simp_all
+  have hst : (p == [42]) = false := by simpa using hs
+  simp only [hpe, hst, Bool.not_false, if_true]
+  congr 1
+  apply List.filter_congr
+  intro x _
+  cases hk : x.kns with
+  | none => simp
+  | some kn =>
+    by_cases hu : u = kn
+    · subst hu; simp [localNameEq, nameEq]; rfl
+    · have : kn ≠ u := fun h => hu h.symm
+      simp [hu, this]
+
+theorem mav_star {c : Ctx} (h : c.supportsNamespaces = true) (e : Elem) (a : Str) :
+    matchAttributeValues c e a "*".toStr =
+      (e.attrs.filter (fun x => (x.kns.isNone && nameEq c a x.key) ||
+        (x.kns.isSome && localNameEq c a x))).map valOf := by
+  simp only [matchAttributeValues, h, if_true, star_toStr]
+  have hpe : ([42] : Str).isEmpty = false := rfl
+  simp only [hpe, Bool.not_false, if_true, bne_self_eq_false, Bool.false_eq_true, if_false,
+    beq_self_eq_true]
+  cases c.nsGet [42] <;>
+  · dsimp only
+    congr 1
+    apply List.filter_congr
     intro x _
     cases hk : x.kns
     · simp [nameEq]
